@@ -489,6 +489,7 @@ impl MqttShared {
     ) -> Result<pool::Receiver<Ack>, SendPacketError> {
         let mut queues = self.queues.borrow_mut();
         if queues.inflight_ids.contains(&id) {
+            Self::pass_turn(self.cap.get(), &mut queues);
             Err(SendPacketError::PacketIdInUse(id))
         } else {
             let (tx, rx) = self.pool.queue.channel();
@@ -506,12 +507,16 @@ impl MqttShared {
         pkt: Publish,
         payload: Option<Bytes>,
     ) -> Result<pool::Receiver<Ack>, SendPacketError> {
-        self.check_streaming()?;
+        if let Err(e) = self.check_streaming() {
+            Self::pass_turn(self.cap.get(), &mut self.queues.borrow_mut());
+            return Err(e.into());
+        }
         self.enable_streaming(&pkt, payload.as_ref());
 
         let mut queues = self.queues.borrow_mut();
         if queues.inflight_ids.contains(&id) {
             self.streaming_remaining.set(None);
+            Self::pass_turn(self.cap.get(), &mut queues);
             Err(SendPacketError::PacketIdInUse(id))
         } else {
             match self.io.encode(Encoded::Publish(pkt, payload), &self.codec) {
@@ -523,6 +528,7 @@ impl MqttShared {
                 }
                 Err(e) => {
                     self.streaming_remaining.set(None);
+                    Self::pass_turn(self.cap.get(), &mut queues);
                     Err(SendPacketError::Encode(e))
                 }
             }
@@ -536,12 +542,16 @@ impl MqttShared {
         pkt: Publish,
         payload: Option<Bytes>,
     ) -> Result<(), SendPacketError> {
-        self.check_streaming()?;
+        if let Err(e) = self.check_streaming() {
+            Self::pass_turn(self.cap.get(), &mut self.queues.borrow_mut());
+            return Err(e.into());
+        }
         self.enable_streaming(&pkt, payload.as_ref());
 
         let mut queues = self.queues.borrow_mut();
         if queues.inflight_ids.contains(&id) {
             self.streaming_remaining.set(None);
+            Self::pass_turn(self.cap.get(), &mut queues);
             Err(SendPacketError::PacketIdInUse(id))
         } else {
             match self.io.encode(Encoded::Publish(pkt, payload), &self.codec) {
@@ -552,6 +562,7 @@ impl MqttShared {
                 }
                 Err(e) => {
                     self.streaming_remaining.set(None);
+                    Self::pass_turn(self.cap.get(), &mut queues);
                     Err(SendPacketError::Encode(e))
                 }
             }
@@ -568,6 +579,18 @@ impl MqttShared {
             queues.inflight_ids.remove(&id);
 
             // the slot is free again, wake up queued request
+            while let Some(tx) = queues.waiters.pop_front() {
+                if tx.send(()).is_ok() {
+                    break;
+                }
+            }
+        }
+    }
+
+    /// A sender that fails before its packet is written does not use its slot,
+    /// the next queued sender takes the turn
+    fn pass_turn(cap: usize, queues: &mut MqttSharedQueues) {
+        if queues.inflight.len() < cap {
             while let Some(tx) = queues.waiters.pop_front() {
                 if tx.send(()).is_ok() {
                     break;
